@@ -90,7 +90,9 @@ def run(chk, repo):
     for n in ts.own_nodes():
         if isinstance(n, ast.Dict) and n.keys and all(const_str(k) for k in n.keys):
             tkeys = {const_str(k) for k in n.keys}
-    skeys = {const_str(k) for k in sn[-1].keys} if sn and isinstance(sn[-1], ast.Dict) else None
+    from ..interproc import dict_entries
+    sn_entries = dict_entries(repo, mod, sn[-1]) if sn else None
+    skeys = set(sn_entries) if sn_entries is not None else None
     chk.require(tkeys is not None and tkeys == skeys, "C14-S5", f"{mod.relpath}:transform_summary", f"sections {sorted(skeys or [])} each have a transformer and a name",
                 f"section_names keys {sorted(skeys or [])} != transformer keys {sorted(tkeys or [])}", key="sections:agree")
     chk.attempt(grouping_semantics, chk, repo, mod, covered_by="summary_eval", rules=("C14-S6",))
@@ -132,7 +134,7 @@ def s4_form(chk, repo, mod):
                 f"lines are produced by {txt}: CRLF files leave a trailing \\r on every line", key="parse_summary:splitlines")
 
 
-def summary_eval(chk, repo, mod):
+def summary_eval(chk, repo, mod, rule="C14-S9"):
     """C14-S9: parse_summary evaluated (the checker's interpreter; the regex is folded by the standard library) on a corpus of
     summary texts: well-formed texts in every line-ending convention and line order, values with blanks / = / quotes, and every
     subset of corrupted lines of a small text in several grammar-violating ways.  Oracle: {section.lower(): {keyword: value}} for
@@ -142,7 +144,8 @@ def summary_eval(chk, repo, mod):
     from ..repeval import from_shape
     from ..shapes import Const, DictS, Fn, Interp, ListLit, Obj, ShapeError, TupS, _Raise
     where = f"{mod.relpath}:parse_summary"
-    chk.rule("C14-S9", "parse_summary on a corpus of texts: well-formed texts (LF / CRLF / mixed / no final newline, any line order) give the section dicts; corrupted ones one error group naming exactly the corrupted lines", 100)
+    if rule == "C14-S9":
+        chk.rule("C14-S9", "parse_summary on a corpus of texts: well-formed texts (LF / CRLF / mixed / no final newline, any line order) give the section dicts; corrupted ones one error group naming exactly the corrupted lines", 100)
     base = [("Odi", "SceneId", "ALOS2012345678-140102"), ("Scs", "SceneShift", "0"), ("Pds", "ProductID", "WWDR1.1__D"), ("Odi", "Comment", 'mode="fine" beam=F2'),
             ("Lbi", "Note", "a=b"), ("Ach", "TimeCheck", ""), ("Pdi", "NoOfPixels_0", "20"), ("Scs", "A_B", "x y")]
     want = {}
@@ -228,11 +231,11 @@ def summary_eval(chk, repo, mod):
                 if sorted(x for x in named if x is not None) != list(subset) or None in named:
                     fails.setdefault("malformed-lines", []).append(f"lines {list(subset)} corrupted ({cname}): the error group names lines {named}")
     for k, msgs in sorted(fails.items()):
-        chk.fail("C14-S9", where, msgs[0] + (f" (and {len(msgs) - 1} more texts)" if len(msgs) > 1 else ""), key=f"corpus:{k}")
+        chk.fail(rule, where, msgs[0] + (f" (and {len(msgs) - 1} more texts)" if len(msgs) > 1 else ""), key=f"corpus:{k}")
     if not fails:
         for _ in range(n_cases):
-            chk.ok("C14-S9", where, "model text")
-        chk.samples.append({"rule": "C14-S9", "where": where, "obligation": {"texts": n_cases, "well-formed variants": 17, "corruption kinds": list(corruptions),
+            chk.ok(rule, where, "model text")
+        chk.samples.append({"rule": rule, "where": where, "obligation": {"texts": n_cases, "well-formed variants": 17, "corruption kinds": list(corruptions),
                                                                               "entry point": "open_summary on the file's bytes" if through_open[0] else "parse_summary on the decoded text"}})
 
 
